@@ -313,6 +313,17 @@ class Tr:
                 pass
         if k == "app" and a.args[0] in getattr(F, "upper", {}):
             self.axioms.append(v <= self.poly(F.upper[a.args[0]](*a.args[1:])))
+        if k == "app" and a.args[0] in ("floordiv", "mod") and len(a.args) == 3:
+            # integer floor division / remainder by a positive divisor: y*q <= x < y*q + y ; r = x - y*q, 0 <= r < y
+            x, y = self.poly(a.args[1]), self.poly(a.args[2])
+            if a.args[0] == "floordiv":
+                self.axioms.append(z3.Implies(y > 0, z3.And(y * v <= x, x < y * v + y)))
+            else:
+                self.axioms.append(z3.Implies(y > 0, z3.And(v >= 0, v < y)))
+                q = self.atom(T.mk_floordiv(a.args[1], a.args[2]).terms[0][0][0][0]) if T.mk_floordiv(a.args[1], a.args[2]).terms and \
+                    len(T.mk_floordiv(a.args[1], a.args[2]).terms) == 1 and len(T.mk_floordiv(a.args[1], a.args[2]).terms[0][0]) == 1 else None
+                if q is not None:
+                    self.axioms.append(z3.Implies(y > 0, v == x - y * q))
         if k == "max":
             x, y = self.poly(a.args[0]), self.poly(a.args[1])
             self.axioms += [v >= x, v >= y, z3.Or(v == x, v == y)]
